@@ -6,15 +6,17 @@ import YaegiVerif.Generated.C12
   C12 — ill-typed programs are rejected before anything runs. Property theorems.
 
   * table theorems: the operator tables regenerated from typecheck.go / type.go decide exactly what
-    the Go specification defines (`oppred_correct`), and the one place where the tables are dead code
-    (`land_lor_entries_dead`);
+    the Go specification defines (`oppred_correct`); since 5877dba the `&&` / `||` entries are consulted
+    (`land_lor_entries_used`);
   * pipeline theorems: over the statement list of `eval` and the call graph regenerated from interp.go /
     program.go, a failing compilation returns an error and nothing of the program executes
     (`no_exec_on_error`), through every entry point (`entry_points_guarded`);
   * typing theorems: for every program of the fragment inside the decidable domain `Dom`, yaegi's checks
     and the Go rules give the same verdict (`typing_agree`), hence `rejects_illtyped_partial`,
-    `accepts_welltyped_partial`, `compile_never_panics_partial`; each class excluded by `Dom` has a
-    witness program on which the full-strength statement fails.
+    `accepts_welltyped_partial`, `compile_never_panics_partial`; each class still excluded by `Dom` has a
+    witness program on which the full-strength statement fails; each finding repaired in the third round
+    (F12-3, 7, 8, 9, 10, 11 in part, 12) has a regression example inside the domain together with its historical
+    verdict under `factsBeforeRound3`, and its rule is proved at full strength (last section).
 -/
 namespace YaegiVerif.Props.C12
 open YaegiVerif YaegiVerif.Typecheck
